@@ -100,7 +100,7 @@ def oracle(q, a):
 def run(run):
     rng = run.rng
     run.do_ties()
-    quick = run.tier == "quick"
+    quick = run.quick
     # ---------------------------------------------------------------- correspondence + oracle
     reqs = []
     rmax = 5 if quick else 8
